@@ -165,7 +165,8 @@ func (r *DocumentHandler) ResolveDocument(longFormDID string,
 }
 
 func (r *DocumentHandler) getNamespace(shortOrLongFormDID string) (string, error) {
-	if strings.HasPrefix(shortOrLongFormDID, r.namespace) {
+	// the namespace has to be followed by the delimiter: did:ionx:... is not in namespace did:ion
+	if strings.HasPrefix(shortOrLongFormDID, r.namespace+docutil.NamespaceDelimiter) {
 		return r.namespace, nil
 	}
 
